@@ -734,7 +734,8 @@ class SplineParser(object):
                 "actual_notes": nom,
                 "normal_notes": den,
             }
-            dur = nom * den
+            # "3%2" is the rational reciprocal 3/2: three notes in the time of two whole notes
+            dur = nom / den
         else:
             dur = float(dur)
             key_loolup = [2**i for i in range(0, 9)]
